@@ -18,6 +18,12 @@
 //	   which Write, Sum and Reset (five operation orders) do not panic. The documented
 //	   "Write/Sum after Read" panics of a Keccak state whose direction byte says squeezing
 //	   are the same behaviour as the original's and are not counted.
+//	L  long histories: marshal after one Write (Keccak: also after one Read) of
+//	   2^k+{-1,0,1,B-1,B,B+1} bytes, k = 8..22; original and restored hashes must continue alike.
+//
+// Hardening pass: every restore is also done into receivers that already hold another
+// state (used, and just after a failing UnmarshalBinary), the blobs are caller-owned
+// (private copies, overwritten after each call).
 package main
 
 import (
@@ -118,6 +124,9 @@ func run(c *vf.Ctx) {
 		"(T) every history over {Write 1,B-1,B,B+1,600; Sum; Reset; M=marshal->unmarshal into fresh->continue on the restored hash} (+Read 1,rate,rate+1 for Keccak) to depth D, no state merging, every object finally extended by one Write+Sum; " +
 		"(H) crafted well-formed BLAKE2 states with high counter words x buffer fill {0,1,B-1,B} x continuation {0,1,B,B+1,3B+1}; " +
 		"(F) single faults of valid marshaled states (all 256 values of each structural byte, counter boundary values, all other values of each magic byte, 4 faults at every byte position, every truncation, extensions, size x offset corner pairs), all strings of length <= 2, seeded random strings, each accepted state driven through 5 operation orders. " +
+		"(L) long histories: state marshaled after one Write of 2^k+{-1,0,1,B-1,B,B+1} bytes, k=8..22 (Keccak also after squeezing that many bytes), restored into a fresh and into two used receivers, all continued with the same Write(B+3)+Sum / Read(2B+5) and compared with the original (and with the reference up to 2^16+B+1). " +
+		"Reused receivers: at every M of (T), in (H) and (L) the state is additionally restored into receivers that already hold another state (absorbed 2B-1 / 2B non-zero bytes, summed, Keccak variant 1 also squeezed, each just after a failing UnmarshalBinary) and these are observed/extended/observed like every other object; in (F) three of the five operation orders restore into such receivers. " +
+		"Caller-owned buffers: UnmarshalBinary gets a private copy of the blob; that copy and the slice returned by MarshalBinary (incl. spare capacity) are overwritten right after the call; every Write gets a private copy overwritten afterwards. " +
 		"non-trivial = distinct fault (kind, base, fault) that UnmarshalBinary accepted and that differs from the valid state, or a distinct history of depth >= 2 containing M. oracle = RFC 7693 / Keccak reference models; error-or-no-panic")
 	c.Assume("reference models verif/ref/blake2ref and verif/ref/keccakref (KAT-validated)")
 	c.Assume("marshal layouts as written in the package sources: blake2 magic|h|c|size|block|offset; Keccak magic|rate|a|n|direction")
@@ -129,6 +138,7 @@ func run(c *vf.Ctx) {
 			highCounters(c, k)
 		}
 		faults(c, k)
+		longStates(c, k)
 	}
 	keyedMarshal(c)
 }
@@ -160,9 +170,50 @@ type obj struct {
 	msg       []byte // bytes written since the last Reset
 	squeezing bool
 	outpos    int
+	reused    bool // restored into a receiver that had been used before
+}
+
+func clobber(b []byte) {
+	for i := range b {
+		b[i] ^= 0xFF
+	}
+}
+
+// used returns a receiver of the same kind that already holds ANOTHER state: it has
+// absorbed more than a block of non-zero bytes (variant 0: buffer almost full, variant 1:
+// buffer completely full / Keccak: additionally squeezed, so its direction is "squeezing"),
+// was summed, and has just returned an error from an UnmarshalBinary of a state that is
+// well-formed up to its last structural byte (state after an error return).
+func (k *kind) used(variant int) hash.Hash {
+	h := k.fresh()
+	junk := bytes.Repeat([]byte{0xEE}, 2*k.B-1+variant%2)
+	h.Write(junk)
+	if good, err := h.(encoding.BinaryMarshaler).MarshalBinary(); err == nil && len(good) == k.mlen {
+		bad := append([]byte(nil), good...)
+		clobber(bad[k.magicLen+1 : k.mlen-2])
+		if k.keccak {
+			bad[k.nIdx] = 255
+		} else {
+			bad[k.offIdx] = 255
+		}
+		h.(encoding.BinaryUnmarshaler).UnmarshalBinary(bad) // must fail; what it leaves behind must not matter
+	}
+	h.Sum(nil)
+	if k.keccak && variant%2 == 1 {
+		h.(io.Reader).Read(make([]byte, 1))
+	}
+	return h
 }
 
 func roundTrip(k *kind, h hash.Hash) (hash.Hash, []byte, string) {
+	return roundTripInto(k, h, nil)
+}
+
+// roundTripInto marshals h and unmarshals into recv (nil = a fresh hash). The caller owns
+// its buffers: UnmarshalBinary gets a private copy of the blob, and both the blob returned
+// by MarshalBinary and that copy are overwritten afterwards - neither the original nor
+// the restored hash may depend on them. The returned blob is an intact copy.
+func roundTripInto(k *kind, h hash.Hash, recv hash.Hash) (hash.Hash, []byte, string) {
 	m, ok := h.(encoding.BinaryMarshaler)
 	if !ok {
 		return nil, nil, "hash does not implement encoding.BinaryMarshaler"
@@ -175,18 +226,25 @@ func roundTrip(k *kind, h hash.Hash) (hash.Hash, []byte, string) {
 	if err != nil {
 		return nil, nil, "MarshalBinary of an unkeyed hash fails | " + err.Error()
 	}
-	f := k.fresh()
+	f := recv
+	if f == nil {
+		f = k.fresh()
+	}
 	u, ok := f.(encoding.BinaryUnmarshaler)
 	if !ok {
 		return nil, nil, "hash does not implement encoding.BinaryUnmarshaler"
 	}
-	if p, v, _ := vf.Protect(func() { err = u.UnmarshalBinary(b) }); p {
+	keep := append([]byte(nil), b...)
+	priv := append([]byte(nil), b...)
+	if p, v, _ := vf.Protect(func() { err = u.UnmarshalBinary(priv) }); p {
 		return nil, nil, fmt.Sprintf("UnmarshalBinary panics on MarshalBinary output | %v", v)
 	}
 	if err != nil {
 		return nil, nil, "UnmarshalBinary rejects MarshalBinary output | " + err.Error()
 	}
-	return f, b, ""
+	clobber(priv)
+	clobber(b[:cap(b)])
+	return f, keep, ""
 }
 
 func (k *kind) check(o *obj, data []byte) string {
@@ -255,7 +313,9 @@ func transparency(c *vf.Ctx, k *kind) {
 				case 'W':
 					var n int
 					var err error
-					p, v, _ := vf.Protect(func() { n, err = cur.h.Write(stream[pos : pos+o.n]) })
+					wbuf := append([]byte(nil), stream[pos:pos+o.n]...) // caller-owned: overwritten after the call
+					p, v, _ := vf.Protect(func() { n, err = cur.h.Write(wbuf) })
+					clobber(wbuf)
 					if cur.squeezing {
 						if !p {
 							return "", true, "Write after Read does not panic"
@@ -303,7 +363,17 @@ func transparency(c *vf.Ctx, k *kind) {
 						return "", true, m
 					}
 					trips++
+					// dimension B: the same state restored into a receiver that already holds
+					// another state (both variants of used()); they are parked and
+					// observed / extended / observed at the end like every other object
 					parked = append(parked, cur)
+					for variant := 0; variant < 2; variant++ {
+						g, _, m := roundTripInto(k, cur.h, k.used(variant))
+						if m != "" {
+							return "", true, "receiver that had been used before: " + m
+						}
+						parked = append(parked, &obj{h: g, msg: append([]byte{}, cur.msg...), squeezing: cur.squeezing, outpos: cur.outpos, reused: true})
+					}
 					cur = &obj{h: f, msg: append([]byte{}, cur.msg...), squeezing: cur.squeezing, outpos: cur.outpos}
 				}
 			}
@@ -312,6 +382,9 @@ func transparency(c *vf.Ctx, k *kind) {
 				who := "restored/current hash"
 				if i > 0 {
 					who = "original kept after MarshalBinary"
+				}
+				if o.reused {
+					who = "hash restored into a receiver that had been used before"
 				}
 				if m := k.check(o, nil); m != "" {
 					return "", true, who + ": " + m
@@ -332,6 +405,115 @@ func transparency(c *vf.Ctx, k *kind) {
 			}
 			return "", false, ""
 		},
+	})
+}
+
+// ------------------------------------------------------------------ L (long histories)
+
+// longStates: the state is marshaled after ONE long Write of 2^k+{-1,0,1,B-1,B,B+1} bytes
+// (k = 8..22; Keccak additionally after squeezing that many bytes), restored into a fresh
+// and into a used receiver, and original and both restored hashes are continued with the
+// same extra Write; all must agree (the property's own differential oracle), and for
+// lengths up to 2^16+B+1 also with the reference digest.
+func longStates(c *vf.Ctx, k *kind) {
+	B := k.B
+	kmax := 22
+	var lens []int
+	seen := map[int]bool{}
+	for e := 8; e <= kmax; e++ {
+		for _, d := range []int{-1, 0, 1, B - 1, B, B + 1} {
+			if L := 1<<e + d; !seen[L] {
+				seen[L] = true
+				lens = append(lens, L)
+			}
+		}
+	}
+	long := c.Bytes("L-"+k.label, 0, 1<<kmax+B+1)
+	extra := c.Bytes("L-extra-"+k.label, 0, B+3)
+	modes := 1
+	if k.keccak {
+		modes = 2 // 0: marshal while absorbing, 1: marshal after squeezing L bytes
+	}
+	pfor(c, k.name+" section L", len(lens)*modes, func(j int) {
+		L := lens[len(lens)-1-j/modes] // longest first
+		squeeze := j%modes == 1
+		bad := func(what string, detail map[string]any) {
+			if detail == nil {
+				detail = map[string]any{}
+			}
+			detail["kind"], detail["length"], detail["squeezed"] = k.label, L, squeeze
+			c.Violation(k.name+": transparency (long history): "+what, detail)
+		}
+		orig := k.fresh()
+		var msg []byte
+		if squeeze {
+			msg = long[:B+1]
+			orig.Write(msg)
+			buf := make([]byte, L)
+			orig.(io.Reader).Read(buf)
+			if L <= 1<<16+B+1 && !bytes.Equal(buf, k.stream(msg, L)) {
+				bad("Read output differs from the Keccak sponge stream", nil)
+				return
+			}
+		} else {
+			msg = long[:L]
+			orig.Write(msg)
+		}
+		c.Eval(1)
+		r1, blob, m := roundTripInto(k, orig, nil)
+		if m != "" {
+			bad(cutBar(m), map[string]any{"mismatch": m})
+			return
+		}
+		r2, _, m := roundTripInto(k, orig, k.used(0))
+		if m != "" {
+			bad("receiver that had been used before: "+cutBar(m), map[string]any{"mismatch": m})
+			return
+		}
+		r3, _, m := roundTripInto(k, orig, k.used(1))
+		if m != "" {
+			bad("receiver that had been used before: "+cutBar(m), map[string]any{"mismatch": m})
+			return
+		}
+		var outs [4][]byte
+		for i, h := range []hash.Hash{orig, r1, r2, r3} {
+			if p, v, _ := vf.Protect(func() {
+				if squeeze {
+					outs[i] = make([]byte, 2*B+5)
+					h.(io.Reader).Read(outs[i])
+				} else {
+					h.Write(extra)
+					outs[i] = h.Sum(nil)
+				}
+			}); p {
+				bad("continuing a restored hash panics", map[string]any{"object": []string{"original", "restored into fresh", "restored into used (absorbing)", "restored into used (full buffer / squeezing)"}[i], "panic": fmt.Sprint(v)})
+				return
+			}
+		}
+		if !bytes.Equal(outs[0], outs[1]) {
+			bad("restored hash continues differently from the original", map[string]any{"state": fmt.Sprintf("%x", blob), "original": fmt.Sprintf("%x", outs[0]), "restored": fmt.Sprintf("%x", outs[1])})
+			return
+		}
+		if !bytes.Equal(outs[0], outs[2]) || !bytes.Equal(outs[0], outs[3]) {
+			bad("hash restored into a receiver that had been used before continues differently from the original", map[string]any{"state": fmt.Sprintf("%x", blob), "original": fmt.Sprintf("%x", outs[0]), "restored": fmt.Sprintf("%x", outs[2])})
+			return
+		}
+		if L <= 1<<16+B+1 {
+			var want []byte
+			if squeeze {
+				want = k.stream(msg, L+2*B+5)[L:]
+			} else {
+				want = k.digest(append(append([]byte{}, msg...), extra...))
+			}
+			if !bytes.Equal(outs[0], want) {
+				bad("original and restored hash agree but differ from the reference", nil)
+				return
+			}
+		}
+		c.Nontrivial(fmt.Sprintf("L/%s/%d/%v", k.label, L, squeeze))
+		if L == 1<<22+B+1 {
+			c.Sample(map[string]any{"section": "L", "kind": k.label, "length": L, "squeezed": squeeze, "state_prefix": vf.Hex8(blob[:16])})
+		}
 	})
 }
 
@@ -381,7 +563,7 @@ func highCounters(c *vf.Ctx, k *kind) {
 		data := c.Bytes("H-data-"+k.label, i, 3*B+1)
 		for _, wl := range []int{0, 1, B, B + 1, 3*B + 1} {
 			a := k.fresh()
-			if err := a.(encoding.BinaryUnmarshaler).UnmarshalBinary(st); err != nil {
+			if err := a.(encoding.BinaryUnmarshaler).UnmarshalBinary(append([]byte(nil), st...)); err != nil {
 				c.Violation(k.name+": UnmarshalBinary rejects a well-formed state", map[string]any{"kind": k.label, "state": fmt.Sprintf("%x", st), "err": err.Error()})
 				return
 			}
@@ -391,8 +573,13 @@ func highCounters(c *vf.Ctx, k *kind) {
 				c.Violation(k.name+": transparency (high counters): "+cutBar(m), map[string]any{"kind": k.label, "state": fmt.Sprintf("%x", st), "mismatch": m})
 				return
 			}
+			b2, _, m := roundTripInto(k, a, k.used(i+wl))
+			if m != "" {
+				c.Violation(k.name+": transparency (high counters): receiver that had been used before: "+cutBar(m), map[string]any{"kind": k.label, "state": fmt.Sprintf("%x", st), "mismatch": m})
+				return
+			}
 			want := k.finish(st, data[:wl])
-			for who, h := range map[string]hash.Hash{"original": a, "restored": b} {
+			for who, h := range map[string]hash.Hash{"original": a, "restored": b, "restored into a receiver that had been used before,": b2} {
 				h.Write(data[:wl])
 				if got := h.Sum(nil); !bytes.Equal(got, want) {
 					c.Violation(k.name+": transparency (high counters): "+who+" hash continues differently from the reference continuation of the state",
@@ -533,7 +720,15 @@ func (k *kind) drive(b []byte) (accepted bool, op string, val any) {
 		{W0, S, Z, S},
 	}
 	for oi, ord := range orders {
+		// orders 1, 2, 4 restore into a receiver that already holds another state
+		// (order 1: absorbing, buffer nearly full; 2 and 4: buffer full / Keccak squeezing)
 		h := k.fresh()
+		switch oi {
+		case 1:
+			h = k.used(0)
+		case 2, 4:
+			h = k.used(1)
+		}
 		var err error
 		if p, v, _ := vf.Protect(func() { err = h.(encoding.BinaryUnmarshaler).UnmarshalBinary(b) }); p {
 			return false, "UnmarshalBinary", v
